@@ -105,7 +105,7 @@ func LkBuildHolder(h string, v *Val) (datamodel.Node, error) {
 		if v.Kind != KBytes {
 			return nil, fmt.Errorf("holder big wants bytes")
 		}
-		return basicnode.NewBytes([]byte(LkRegister(v.S))), nil
+		return basicnode.NewBytes(LkRegisterBytes(v.S)), nil
 	}
 	if !LkIsTyped(h) {
 		return BuildHolder(h, v)
